@@ -349,6 +349,59 @@ def legs_level(res, tier):
                 res.traces += 1
 
 
+def close_pairs(res, tier):
+    """two critical points of the same kind a few cells apart, each with its own strict node minimum of Bp^2 (a snowflake-minus style divertor: two
+    first-order X-points side by side under a compact plasma): both must be returned, each exactly once"""
+    from scipy.optimize import fsolve
+    from hypnotoad.utils import critical
+
+    r0, zo, w = 1.5, 0.25, 0.15
+    for rs, zs, a, k, n in [(1.507, -0.55, 0.04, 0.05, 65), (1.493, -0.52, 0.05, 0.05, 65)] + ([(1.507, -0.55, 0.03, 0.05, 97)] if tier == "thorough" else []):
+        def grad(p):
+            R, Z = p
+            x, y = R - rs, Z - zs
+            g = np.exp(-((R - r0) ** 2 + (Z - zo) ** 2) / w ** 2)
+            return [-2.0 * (R - r0) / w ** 2 * g + k * (3.0 * x ** 2 - 3.0 * y ** 2 - 3.0 * a ** 2), -2.0 * (Z - zo) / w ** 2 * g + k * (-6.0 * x * y)]
+
+        r1, z1 = np.linspace(1.0, 2.0, n), np.linspace(-1.0, 1.0, n)
+        R2, Z2 = np.meshgrid(r1, z1, indexing="ij")
+        psi = np.exp(-((R2 - r0) ** 2 + (Z2 - zo) ** 2) / w ** 2) + k * ((R2 - rs) ** 3 - 3.0 * (R2 - rs) * (Z2 - zs) ** 2 - 3.0 * a ** 2 * (R2 - rs))
+        truth = []
+        with warnings.catch_warnings():
+            warnings.simplefilter("ignore")
+            for sx in np.linspace(-2.5 * a, 2.5 * a, 11):
+                for sy in np.linspace(-1.5 * a, 1.5 * a, 7):
+                    sol, _info, ier, _ = fsolve(grad, [rs + sx, zs + sy], full_output=True, xtol=1e-13)
+                    g_ = grad(sol)
+                    if ier != 1 or g_[0] ** 2 + g_[1] ** 2 > 1e-22 or abs(sol[0] - rs) > 3 * a or abs(sol[1] - zs) > 2 * a:
+                        continue
+                    h_ = 1e-6
+                    pRR = (grad([sol[0] + h_, sol[1]])[0] - grad([sol[0] - h_, sol[1]])[0]) / (2 * h_)
+                    pZZ = (grad([sol[0], sol[1] + h_])[1] - grad([sol[0], sol[1] - h_])[1]) / (2 * h_)
+                    pRZ = (grad([sol[0], sol[1] + h_])[0] - grad([sol[0], sol[1] - h_])[0]) / (2 * h_)
+                    if pRR * pZZ - pRZ ** 2 < 0 and all(np.hypot(sol[0] - t_[0], sol[1] - t_[1]) > 1e-6 for t_ in truth):
+                        truth.append((float(sol[0]), float(sol[1])))
+        dR = r1[1] - r1[0]
+        payload = {"family": "snowflake-minus", "rs": rs, "zs": zs, "a": a, "k": k, "n": n}
+        res.case(key=("close-pair", rs, a, n), nontrivial=True, sample={"op": "two X-points a few cells apart", "separation_cells": (2 * a) / dR})
+        if len(truth) != 2:
+            res.extra.setdefault("close_pair_skipped", []).append([payload, len(truth)])
+            continue
+        with warnings.catch_warnings(), contextlib.redirect_stdout(io.StringIO()):
+            warnings.simplefilter("ignore")
+            opts, xpts = critical.find_critical(R2, Z2, psi, 1e-14, 1000)
+        ok = True
+        for t_ in truth:
+            hits = [p for p in xpts if np.hypot(p[0] - t_[0], p[1] - t_[1]) < 2e-3]
+            if len(hits) != 1:
+                ok = False
+                res.violation("close-pair-x-count", "two X-points %.2f cells apart (snowflake-minus, %dx%d grid): the X-point at (%.5f, %.5f) is returned %d times; X-points "
+                              "returned: %s" % (np.hypot(truth[0][0] - truth[1][0], truth[0][1] - truth[1][1]) / dR, n, n, t_[0], t_[1], len(hits),
+                                                [(round(float(p[0]), 4), round(float(p[1]), 4)) for p in xpts]), payload)
+        if ok:
+            res.traces += 1
+
+
 def run(res, tier):
     r = vlib.rng("c19")
     res.rule = ("analytic flux functions (2-3 tilted elliptical Gaussians, either sign, elongation up to 2.2, tilt up to 0.8 rad) on grids of "
@@ -364,6 +417,7 @@ def run(res, tier):
         check_family(res, r, k, lines, pend)
     tokamak_level(res, tier)
     legs_level(res, tier)
+    close_pairs(res, tier)
     lines.append("c19n 0"); pend.append(("n", "refuse", None))
     lines.append("c19n 1"); pend.append(("n", "single", None))
     lines.append("c19n 2"); pend.append(("n", "double", None))
